@@ -17,6 +17,7 @@ INVARIANT LawShift
 INVARIANT LawOriginFree
 INVARIANT BoxLaws
 INVARIANT RectLaws
+INVARIANT LawBracket
 INVARIANT ExtentsInRange
 PROPERTY Terminates
 CHECK_DEADLOCK FALSE
